@@ -1,7 +1,7 @@
 (* C19/ProofsLoopEx.v -- the hypotheses of the loop theorem are satisfiable: a concrete function with a
    riscv_scf.for carrying one value (iter_args), checked against every hypothesis, and the theorem applied. *)
 From Coq Require Import ZArith List Bool Arith Lia.
-From XV Require Import C19.Model C19.ProofsSpec C19.ProofsStack C19.ProofsStep C19.ProofsRefute C19.ProofsLoop2.
+From XV Require Import C19.Model C19.ProofsSpec C19.ProofsStack C19.ProofsStep C19.ProofsRefute C19.ProofsFunc C19.ProofsLoop2 C19.ProofsLoopSem.
 Import ListNotations.
 Local Open Scope Z_scope.
 
@@ -186,3 +186,45 @@ Theorem loop_clobber_hypotheses_satisfiable :
   forall p o s, virt ex_pre ex_f ex_post = p ++ o :: s -> forall d v, In d (defs o) -> live s v -> d <> v ->
     tconn ex_pre ex_f ex_post d v -> False.
 Proof. apply (tie_check_def ex_cls ex_pre ex_f ex_post ex_ties). vm_compute. reflexivity. Qed.
+
+(* the semantics theorem applies to the example: for every trip count the lowered loop and the SSA loop
+   agree on the returned value %4 *)
+Theorem loop_semantics_example :
+  exists af, allocate_func true [7; 6; 5] false ex_fn = Ok af /\
+  forall (data : Type) (dzero : data) (fop : nat -> nat -> list data -> data) (ivnext : data -> data -> data)
+         (n : nat) (env : value -> data) (rf : Z -> data),
+    (forall v, live (Hop ex_f :: f_body ex_f ++ Yop ex_f :: ex_post) v -> read_reg data dzero true (asg_of af) rf v = env v) ->
+    (forall v, In v (zero_consts (ex_pre ++ [Hop ex_f])) -> env v = dzero) ->
+    read_reg data dzero true (asg_of af) (regs_loop data dzero fop ivnext true (asg_of af) ex_pre ex_f 5%nat n rf) 4%nat
+    = ssa_loop data dzero fop ivnext ex_pre ex_f 5%nat [6%nat] n env 4%nat.
+Proof.
+  pose proof ex_run as Hrun.
+  destruct (allocate_func true [7; 6; 5] false ex_fn) as [af|e] eqn:E; [|contradiction].
+  exists af. split; [reflexivity|].
+  intros data dzero fop ivnext n env rf Hag Hzc.
+  apply (func_loop_semantics true [7; 6; 5] false ex_types ex_pre ex_f ex_post 5%nat [6%nat] af).
+  - intros _. simpl. intuition lia.
+  - intros r Hr. simpl in Hr. intuition lia.
+  - intros v. unfold ty0. simpl. do 8 (destruct v as [|v]; [reflexivity|]). destruct v; reflexivity.
+  - reflexivity.
+  - exact ex_wf.
+  - exact ex_io.
+  - intros o x y _ _ Hc. vm_compute in Hc. exact Hc.
+  - simpl. repeat split; reflexivity.
+  - vm_compute. repeat constructor; simpl; intuition discriminate.
+  - intros v Hv [o [Ho Hu]]. in_cases Ho. unfold uses, sop_operands in Hu. simpl in Hu.
+    destruct Hu as [Hu|[]]. subst v. destruct Hv as [Hv|[o [Ho Hd]]].
+    + simpl in Hv. intuition discriminate.
+    + in_cases Ho. unfold defs, sop_results in Hd. simpl in Hd. intuition discriminate.
+  - vm_compute. intuition discriminate.
+  - intros v Hv. vm_compute in Hv. destruct Hv.
+  - intros v Hv. simpl in Hv. destruct Hv as [Hv|[Hv|[]]]; subst v; (split; [vm_compute; intuition discriminate | discriminate]).
+  - apply (tie_check ex_cls ex_pre ex_f ex_post ex_ties). vm_compute. reflexivity.
+  - exact loop_clobber_hypotheses_satisfiable.
+  - exact E.
+  - exact Hag.
+  - exact Hzc.
+  - (* %4 is live after the loop *)
+    split; [exists (mkSop [4%nat] [] [] KOther true); split; [left; reflexivity | left; reflexivity]|].
+    intros [o [Ho Hd]]. in_cases Ho; unfold defs, sop_results in Hd; simpl in Hd; exact Hd.
+Qed.
